@@ -453,6 +453,13 @@ func (e *Engine) specialCall(g *Gen, callee *ssa.Function, cc *ssa.CallCommon, a
 		if ct == nil || ct.Options["chunked"] == "" || len(fn.Params) != 2 {
 			return nil, false
 		}
+		// Execute's own precondition (C20 proves Execute under it): a non-negative iteration count and, when a CPU limit is
+		// passed, a limit of at least one
+		g.oblige("pre", fmt.Sprintf("(>= %s 0)", args[0].S[0]), pos, "precondition of parallel.Execute: nbIterations >= 0", nil)
+		if len(args) >= 3 && args[2].Sort == "Slice" && len(args[2].S) >= 3 && args[2].S[2] != "0" {
+			first := sel2(g.heap["Int"], args[2].S[0], args[2].S[1])
+			g.oblige("pre", fmt.Sprintf("(=> (= %s 1) (>= %s 1))", args[2].S[2], first), pos, "precondition of parallel.Execute: len(maxCpus) == 1 ==> maxCpus[0] >= 1", nil)
+		}
 		names := []string{fn.Params[0].Name(), fn.Params[1].Name()}
 		cargs := []*Val{scalar("Int", "0", fn.Params[0].Type()), args[0]}
 		for i, fv := range fn.FreeVars {
